@@ -156,7 +156,7 @@ package main
 //@ func FieldBuildContext.GetNullable
 //@ pure
 //@ requires c != nil
-//@ ensures result == strcontains(c.goType, "*")
+//@ ensures [C02,C20,C04] result == strcontains(c.goType, "*")
 
 //@ func FieldBuildContext.GetTerraformTypeOverride
 //@ requires wfc(c)
@@ -180,7 +180,7 @@ package main
 //@ pure
 //@ requires wfc(c) && c.field.GetName() != ""
 //@ define n = c.field.GetName()
-//@ ensures result == ite(n[0:1] == strings.ToLower(n[0:1]), strcase.UpperCamelCase(n), n)
+//@ ensures [C01,C02] result == ite(n[0:1] == strings.ToLower(n[0:1]), strcase.UpperCamelCase(n), n)
 
 // The documented type table (README "Type mapping"): integers and enums -> Int64, float/double -> Float64,
 // bool -> Bool, string/bytes -> String, time/duration -> the configured types, message -> Object;
@@ -351,7 +351,7 @@ package main
 
 //@ func NewMessageBuildContext
 //@ requires plugin != nil && desc != nil
-//@ ensures result.plugin == plugin && result.imports == &plugin.Imports && result.config == plugin.Config && result.gen == plugin.Generator && result.desc == desc && result.path == path
+//@ ensures [C11,C12] result.plugin == plugin && result.imports == &plugin.Imports && result.config == plugin.Config && result.gen == plugin.Generator && result.desc == desc && result.path == path
 
 // the field's option keys: Message.Field and <path of the message>.Field; its position in the message
 // (comments are looked up by it) must be its declaration index
@@ -387,6 +387,7 @@ package main
 
 // every field is built in declaration order; the first error fails the whole message
 //@ func BuildFields
+//@ exhaustive 0
 //@ ghost g int
 //@ requires [C12] regOK(m.plugin, g)
 //@ ensures [C12] regOK(m.plugin, g) && regFr(m.plugin)
@@ -466,6 +467,15 @@ package main
 //@ ensures [C18] imp(first(c.gen.GoType(c.desc, mt.KeyField)) != "string", result2 != nil)
 //@ ensures [C18] imp(result2 == nil, result1 != nil && result1.FieldDescriptorProto != nil && result1.FieldDescriptorProto == mt.ValueField)
 //@ ensures [C18] imp(result2 != nil, result1 == nil)
+//@ # the map's Go type string is gogo's, qualified with the struct package like every other type (C13)
+//@ define gt = mt.GoType
+//@ define pkg = c.config.DefaultPackageName
+//@ define im = *c.imports
+//@ define typ0 = first(im.typAndMod(gt))
+//@ define mod0 = second(im.typAndMod(gt))
+//@ define keep = strcontains(im.typBeforeBracket(typ0), ".") || pkg == "" || im.isBuiltinType(typ0)
+//@ ensures [C13,C01] imp(result2 == nil && keep, result0 == gt)
+//@ ensures [C13,C01] imp(result2 == nil && !keep, result0 == old(qualified(im, pkg + "." + typ0, mod0)))
 
 //@ func NewMapValueFieldBuildContext
 //@ requires c != nil && wfc2(c) && field != nil
@@ -621,11 +631,14 @@ package main
 // the registry slice is either untouched or a new array (append copies): nobody else's array is written
 //@ define regFr(p) = same(p.Messages, old(p.Messages)) || fresh(p.Messages)
 
+// the registry is assigned only by RegisterMessage (append) and the constructor: nobody truncates or replaces it
+//@ fieldwriters Plugin.Messages: Plugin.RegisterMessage NewPlugin
+
 //@ func Plugin.RegisterMessage
 //@ ghost g int
 //@ requires p != nil
 //@ modifies p.Messages
-//@ ensures len(p.Messages) == old(len(p.Messages)) + 1 && p.Messages[old(len(p.Messages))] == m
+//@ ensures [C12,C18] len(p.Messages) == old(len(p.Messages)) + 1 && p.Messages[old(len(p.Messages))] == m
 //@ ensures imp(0 <= g && g < old(len(p.Messages)), p.Messages[g] == old(p.Messages[g]))
 //@ ensures fresh(p.Messages)
 
@@ -636,6 +649,8 @@ package main
 // fails is skipped as a whole (nothing of it is registered as root); under `sort` the registry is
 // ordered by name
 //@ func Plugin.build
+//@ # every message of the file is offered to BuildMessage: the loop is not left early; nothing here ends the process
+//@ exhaustive 0
 //@ ghost g int
 //@ ghost h int
 //@ ghost j0 int
@@ -664,13 +679,13 @@ package main
 //@ define keeps(w, x) = imp(hasSchema(old(wbuf(w)), x), hasSchema(wbuf(w), x)) && imp(hasCopyFrom(old(wbuf(w)), x), hasCopyFrom(wbuf(w), x)) && imp(hasCopyTo(old(wbuf(w)), x), hasCopyTo(wbuf(w), x))
 
 //@ func NewMessageSchemaGenerator
-//@ ensures result != nil && fresh(result) && result.Message == m && result.i == i
+//@ ensures [C12,C01] result != nil && fresh(result) && result.Message == m && result.i == i
 //@ func NewMessageCopyFromGenerator
-//@ ensures result != nil && fresh(result) && result.Message == m && result.i == i
+//@ ensures [C12,C01] result != nil && fresh(result) && result.Message == m && result.i == i
 //@ func NewMessageCopyToGenerator
-//@ ensures result != nil && fresh(result) && result.Message == m && result.i == i
+//@ ensures [C12,C01] result != nil && fresh(result) && result.Message == m && result.i == i
 //@ func NewSharedCodeGenerator
-//@ ensures result.i == i
+//@ ensures [C01] result.i == i
 
 // only root messages are ever handed to a message-level generator (precondition, checked at every
 // call); a generator appends: what the output had, it keeps (x: any message)
@@ -707,6 +722,7 @@ package main
 // the shared code once; nothing is generated for a message that is not root; the first failure
 // fails the whole file
 //@ func Plugin.write
+//@ exhaustive 0 1
 //@ propagates [C18]
 //@ ghost g int
 //@ # the callees' "any message" is instantiated at the g-th message
@@ -750,6 +766,7 @@ package main
 // every file with content is passed through goimports, gets the license header and, when a target
 // package is configured, the rewritten package clause; a goimports failure fails the run
 //@ func runGoImports
+//@ exhaustive 0
 //@ propagates [C01]
 //@ ghost g int
 //@ requires p != nil && p.Config != nil && resp != nil
@@ -777,6 +794,8 @@ package main
 // one file of the request: fresh import table, build the registry, write it out; the registry
 // invariant (C12) holds across files; a write failure ends the process
 //@ func Plugin.Generate
+//@ # a write failure ends the process (Generator.Fail)
+//@ aborts
 //@ ghost g int
 //@ ghost h int
 //@ ghost j0 int
@@ -793,12 +812,14 @@ package main
 //@ extern generator.NewPluginImports(g)
 //@ ensures result != nil
 //@ func Plugin.Init
+//@ # a configuration error ends the process (Generator.Fail)
+//@ aborts
 //@ requires p != nil && g != nil
 //@ modifies *
 //@ ensures [C16] p.Generator == g && p.PluginImports != nil && p.Config != nil && len(p.Config.Types) > 0
 //@ func NewPlugin
 //@ ghost g int
-//@ ensures result != nil && fresh(result) && len(result.Messages) == 0 && regOK(result, g)
+//@ ensures [C12] result != nil && fresh(result) && len(result.Messages) == 0 && regOK(result, g)
 
 // ===================================================================== CopyFrom, emitted code
 
